@@ -22,9 +22,10 @@ let mvp_case _ line =
     | "3" -> mvp3_run (nat_of_int fuel) prog (lookup labels) st
     | "4" -> mvp4_run (nat_of_int fuel) prog (lookup labels) st
     | "5" -> mvp5_run (nat_of_int fuel) prog (lookup labels) st
-    | v when String.length v >= 5 && List.mem (String.sub v 0 4) ["6.0x"; "6.1x"; "6.2x"; "6.3x"; "8.0x"] ->
+    | v when String.length v >= 5 && List.mem (String.sub v 0 4) ["6.0x"; "6.1x"; "6.2x"; "6.3x"; "7.0x"; "7.1x"; "8.0x"] ->
       (* "6.Nx<par>", "6.Nx<par>o<k>", "6.Nx<par>r<seed>" or "6.Nx<par>g<seed>": MVP-6.N (N = 0..3) with <par>
-         execute/write units; "8.0x<par>..." the same for MVP-8.0 (Mvp80.v; ord also orders the snoop requests of a core).  Go map iteration orders are arguments of the models:
+         execute/write units; "7.0x<par>...", "7.1x<par>...": MVP-7.0 / 7.1 with <par> cores (the maps whose order is an
+         argument are those of the 6.3 front end); "8.0x<par>..." the same for MVP-8.0 (Mvp80.v; ord also orders the snoop requests of a core).  Go map iteration orders are arguments of the models:
            ord   - a store's MemoryChanges map (all four models); in Mvp63 the same function also orders
                    controlUnit.pushedRunnersInPreviousCycle (pc = the reading runner) and the RAT value maps (pc < 0);
            pord  - Mvp61: which of the n matching runners of pushedRunnersInPreviousCycle is taken.
@@ -75,6 +76,8 @@ let mvp_case _ line =
         | "6.0x" -> norat (mvp60_run_snap (nat_of_int par) ord (nat_of_int fuel) prog (lookup labels) st)
         | "6.1x" -> norat (mvp61_run_snap (nat_of_int par) ord pord (nat_of_int fuel) prog (lookup labels) st)
         | "6.2x" -> norat (mvp62_run_snap (nat_of_int par) ord (nat_of_int fuel) prog (lookup labels) st)
+        | "7.0x" -> mvp70_run_snap (nat_of_int par) ord (nat_of_int fuel) prog (lookup labels) st
+        | "7.1x" -> mvp71_run_snap (nat_of_int par) ord (nat_of_int fuel) prog (lookup labels) st
         | "8.0x" -> mvp80_run_snap (nat_of_int par) ord (nat_of_int fuel) prog (lookup labels) st
         | _ -> mvp63_run_snap (nat_of_int par) ord (nat_of_int fuel) prog (lookup labels) st in
       (match result with
